@@ -63,6 +63,10 @@ def step (s : DState) (toks : List String) : DState × String :=
     match s.cur with
     | none => (s, "bad-op")
     | some (w, p) => ({ s with cur := some (w, { p with volumes := p.volumes ++ [{ name := dec name, digest := digest }] }) }, "ok")
+  | ["e", name, digest] =>
+    match s.cur with
+    | none => (s, "bad-op")
+    | some (w, p) => ({ s with cur := some (w, { p with ephemerals := p.ephemerals ++ [{ name := dec name, digest := digest }] }) }, "ok")
   | ["m", metaD, specD] =>
     match s.cur with
     | none => (s, "bad-op")
